@@ -137,6 +137,72 @@ def run(tier, seed):
                         ok, obs = False, f"raises {type(e).__name__}: {e}"
                     wm.case((text, f.name, same, path[0]), ok, observed=obs, inputs={"definition": text, "member": f.name, "identical_bytes": same, "then": "/".join(path[0])})
     wm.add_to(rep)
+    # constructed (not parsed) unions: default instances are independent of each other, value initialisation rebuilds from the
+    # first given member whatever its type, and an assignment is carried out whenever the *bytes* differ (not only when != holds)
+    cons = Bounded("constructed-unions", "default / positional / keyword construction and byte-level (not ==-level) assignments on hand-picked definitions")
+    import struct as _st
+
+    def ccase(name, fn, **inputs):
+        try:
+            ok, obs = fn()
+        except Exception as e:  # noqa: BLE001
+            ok, obs = False, f"raises {type(e).__name__}: {e}"
+        cons.case(name, ok, observed=obs, inputs=inputs)
+
+    for text, _align in HISTORY_DEFS:
+        for endian in "<>":
+            def fresh(text=text, endian=endian):
+                cs = cstruct(endian=endian)
+                cs.load(text)
+                U = cs.U
+                paths = leaf_paths(U)
+                u1, u2 = U(), U()
+                zero = U().dumps()
+                for path in paths[:6]:
+                    assign(u1, path, (1 << (8 * path[2])) - 2)
+                u3 = U()
+                okk = u2.dumps() == zero and u3.dumps() == zero and all(member_bytes(u3, f) == reparse_dump(U, f, zero) for f in U.__fields__)
+                # a later assignment on the untouched / fresh instance starts from zero bytes
+                if paths:
+                    buf = bytearray(zero)
+                    assign(u3, paths[-1], 1)
+                    ref_assign(cs, U, buf, paths[-1], 1, endian)
+                    okk = okk and same_modulo_padding(U, u3.dumps(), bytes(buf), endian)
+                return okk, f"after assignments on one default instance: another dumps {u2.dumps().hex()}, a fresh one {u3.dumps().hex()} (zero = {zero.hex()})"
+
+            ccase(("default-instances-independent", text, endian), fresh, definition=text, endian=endian)
+
+    def positional():
+        cs = cstruct()
+        cs.load("union U { char tag[4]; uint32 a; struct { uint16 lo; uint16 hi; } w; };")
+        u = cs.U(b"ABCD", 5)
+        v = cs.U(b"ABCD")  # a buffer of the union's size: parsed
+        k = cs.U(tag=b"ABCD")
+        okk = u.dumps() == b"ABCD" and u.a == 0x44434241 and u.w.lo == 0x4241 and v.dumps() == b"ABCD" and k.dumps() == b"ABCD" and k.a == u.a
+        u.w.hi = 0x5A5A
+        okk = okk and u.dumps() == b"ABZZ" and u.tag == b"ABZZ"
+        return okk, f"U(b'ABCD', 5): dumps {u.dumps()!r} a={u.a:#x} tag={u.tag!r}"
+
+    ccase("positional-initialisation-char-first", positional, definition="union U { char tag[4]; uint32 a; struct { uint16 lo; uint16 hi; } w; };")
+
+    def bytes_not_eq():
+        cs = cstruct()
+        cs.load("union U { struct { float x; float y[2]; uint8 n; } v; uint8 raw[13]; };")
+        u = cs.U(bytes(13))
+        u.v.x = -0.0  # == 0.0, other bytes
+        a = bytes(u.raw[:4])
+        u.v.y = [0.0, -0.0]
+        b = bytes(u.raw[4:12])
+        arr = u.v.y
+        arr[0] = 1.5
+        u.v.y = arr  # the same list object, modified in place
+        c = bytes(u.raw[4:8])
+        u.v.n = True  # == 1
+        okk = a == _st.pack("<f", -0.0) and b == _st.pack("<2f", 0.0, -0.0) and c == _st.pack("<f", 1.5) and u.raw[12] == 1
+        return okk, f"raw after -0.0 / [0.0, -0.0] / in-place list: {a.hex()} {b.hex()} {c.hex()} n={u.raw[12]}"
+
+    ccase("assignment-by-bytes-not-by-equality", bytes_not_eq, definition="union U { struct { float x; float y[2]; uint8 n; } v; uint8 raw[13]; };")
+    cons.add_to(rep)
     rep.extra["rule"] = "union programs: member kinds of every fixed-size class x endian x mode; histories: definitions x assignment paths x values"
     rep.extra["explanation"] = (
         "deductive part: union layout (T1: size = max member size rounded up to the max alignment, alignment = max), per union program "
